@@ -6,6 +6,7 @@ CONSTANTS
   MinLen = 1
   MaxPairs = 2
   KeepHist = FALSE
+  EmitFrom = 0
 INVARIANTS
   Disjoint
   HullIsUnion
